@@ -67,7 +67,7 @@ func (e *Engine) inlineTarget(call *ast.CallExpr, callee *types.Func) *ast.FuncD
 		}
 	}
 	sig := callee.Type().(*types.Signature)
-	if sig.TypeParams().Len() > 0 || sig.RecvTypeParams().Len() > 0 {
+	if sig.RecvTypeParams().Len() > 0 {
 		return nil
 	}
 	if sig.Variadic() {
@@ -76,7 +76,10 @@ func (e *Engine) inlineTarget(call *ast.CallExpr, callee *types.Func) *ast.FuncD
 			return nil
 		}
 	} else if sig.Params().Len() != len(call.Args) {
-		return nil
+		// f(g()) with g returning all of f's arguments
+		if e.forwarded(call, sig) == nil {
+			return nil
+		}
 	}
 	if sig.Recv() != nil {
 		// only method calls through a selector on a value (not method expressions or interface calls)
@@ -129,6 +132,14 @@ func (e *Engine) inlineCall(call *ast.CallExpr, callee *types.Func, decl *ast.Fu
 			rhs = append(rhs, sel.X)
 		}
 	}
+	args := call.Args
+	if inner := e.forwarded(call, callee.Type().(*types.Signature)); inner != nil {
+		// f(g()): the parameters are bound to the result variables of the inner call
+		args = nil
+		for _, id := range e.CallResults(inner) {
+			args = append(args, id)
+		}
+	}
 	i := 0
 	for _, f := range decl.Type.Params.List {
 		if len(f.Names) == 0 {
@@ -139,9 +150,9 @@ func (e *Engine) inlineCall(call *ast.CallExpr, callee *types.Func, decl *ast.Fu
 			break
 		}
 		for _, n := range f.Names {
-			if n.Name != "_" && i < len(call.Args) {
+			if n.Name != "_" && i < len(args) {
 				lhs = append(lhs, n)
-				rhs = append(rhs, call.Args[i])
+				rhs = append(rhs, args[i])
 			}
 			i++
 		}
@@ -354,5 +365,51 @@ func namedResults(decl *ast.FuncDecl) []*ast.Ident {
 	for _, f := range decl.Type.Results.List {
 		ids = append(ids, f.Names...)
 	}
+	return ids
+}
+
+// forwarded: for a call f(g()) whose single argument supplies all of f's parameters, the inner call.
+func (e *Engine) forwarded(call *ast.CallExpr, sig *types.Signature) *ast.CallExpr {
+	if len(call.Args) != 1 || sig.Params().Len() < 2 || sig.Variadic() {
+		return nil
+	}
+	inner, ok := ast.Unparen(call.Args[0]).(*ast.CallExpr)
+	if !ok {
+		return nil
+	}
+	if t, ok := e.Info.TypeOf(inner).(*types.Tuple); ok && t.Len() == sig.Params().Len() {
+		return inner
+	}
+	return nil
+}
+
+// CallResults returns variables standing for the results of a call (created on demand): a client can attach facts or
+// tags to the results of a call that is not interpreted in place, and they flow on like any other value.
+func (e *Engine) CallResults(call *ast.CallExpr) []*ast.Ident {
+	if ids, ok := e.inlined[call]; ok {
+		return ids
+	}
+	var ids []*ast.Ident
+	name := "call"
+	var pkg *types.Package
+	if f := Callee(e.Info, call); f != nil {
+		name, pkg = f.Name(), f.Pkg()
+	}
+	var ts []types.Type
+	switch t := e.Info.TypeOf(call).(type) {
+	case *types.Tuple:
+		for i := 0; i < t.Len(); i++ {
+			ts = append(ts, t.At(i).Type())
+		}
+	case nil:
+	default:
+		ts = append(ts, t)
+	}
+	for i, t := range ts {
+		id := &ast.Ident{NamePos: call.Pos(), Name: fmt.Sprintf("ret%d$%s", i, name)}
+		e.P.synthDefs(id, types.NewVar(call.Pos(), pkg, id.Name, t))
+		ids = append(ids, id)
+	}
+	e.inlined[call] = ids
 	return ids
 }
